@@ -11,6 +11,12 @@ CHECKS = {
  "C12": ("vseq", "model_checking", "explicit-state enumeration; a generic reader driven only by the real Schema parses the real bytes",
          "For every enumerated (type, version, value) the schema-driven reader must consume the serialized bytes exactly and produce the token structure of the value.", "§5 C12"),
 }
+CHECKS.update({
+ "C03": ("vseq", "model_checking", "breadth-first search over the history tree of schema-evolution edits; every (ancestor, node, value) load compared with the step-wise upgrade model",
+         "Every node of the edit tree (depth 2 quick / 3 thorough) loads data saved by every ancestor definition, with and without schema and inside a Vec; the result must equal the documented meaning of each edit applied step by step.", "§5 C03"),
+ "C18": ("vseq", "model_checking", "breadth-first search over the history tree; every (node, ancestor, value) old-version write compared with the downgrade model and read back by the older definition",
+         "Every node writes every representable value at every ancestor version; the bytes must equal the older definition's reference encoding (single and Vec) and the older definition must read the downgraded value; packed=yes at an old version is checked against the memory image by the shared sweep.", "§5 C18"),
+})
 TODO = {}
 props = [json.loads(l)["id"] for l in open("/verif/properties.jsonl")]
 checks = []
